@@ -838,6 +838,47 @@ fn exhaustive_space(tier: Tier) -> Vec<Scenario> {
     out
 }
 
+/// Clamp a structurally decoded scenario into the generator's domain (fuzz tier).
+pub fn fuzz_sanitize(sc: &mut Scenario) -> bool {
+    sc.tick_ms = 1 + sc.tick_ms % 4;
+    sc.lat_min %= 9;
+    sc.lat_max = sc.lat_min + sc.lat_max % 31;
+    sc.capacity = if sc.capacity % 4 == 0 { 64 } else { sc.capacity % 4 };
+    sc.manual_order = None;
+    for s in [&mut sc.client, &mut sc.server] {
+        s.chunks.truncate(12);
+        for c in s.chunks.iter_mut() {
+            *c = 1 + *c % 300;
+        }
+        s.write_pauses.truncate(4);
+        for p in s.write_pauses.iter_mut() {
+            *p %= 7;
+        }
+        s.reads.truncate(5);
+        for r in s.reads.iter_mut() {
+            r.0 %= 401;
+            r.2 %= 9;
+        }
+        if s.reads.iter().all(|r| r.0 == 0) {
+            s.reads.push((3, false, 0));
+        }
+        s.reader_quits_after = s.reader_quits_after.map(|q| q % 40);
+        s.reader_delay %= 61;
+    }
+    if sc.client.mode == Mode::WholeSeq && sc.server.mode == Mode::WholeSeq {
+        sc.client.chunks.truncate(sc.capacity);
+        sc.server.chunks.truncate(sc.capacity);
+    }
+    // faults: keep at most one hold->release or partition->repair pair
+    let first = sc.faults.first().cloned();
+    sc.faults = match first {
+        Some((a, Fault::Hold)) | Some((a, Fault::Release)) => vec![(2 + a % 38, Fault::Hold), (2 + a % 38 + 1 + (a >> 8) % 19, Fault::Release)],
+        Some((a, _)) => vec![(2 + a % 38, Fault::Partition), (2 + a % 38 + 1 + (a >> 8) % 19, Fault::Repair)],
+        None => vec![],
+    };
+    true
+}
+
 fn check(tier: Tier, seed: u64) -> i32 {
     let ctx = Ctx::new("C02", tier, seed, "exploration");
     ctx.replay_corpus(&replay);
